@@ -174,7 +174,7 @@ def slim(tr: dict) -> dict:
 
 
 def judge(ctx: Ctx, behs: list[dict], traces: list[dict]) -> None:
-    verdicts = ctx.validate("FsIsolationTrace", [slim(t) for t in traces], chunk=20000)
+    verdicts = ctx.validate("FsIsolationTrace", [slim(t) for t in traces], chunk=6000)
     seen: set[str] = set()
     drift_seen: set[str] = set()
     for idx, bad in sorted(verdicts.items()):
